@@ -19,19 +19,22 @@
      5. the dirty set after the commit is the model's uncache,
      6. if a first attempt was ended by an injected Write error: the puts it left on disk found their
         references on the disk-so-far, and the hypotheses still hold afterwards (the model's OFail);
-   and at the end that the final disk is closed. *)
+   and at the end that the final disk is closed.
+   Separately, sampled real blobs are decoded by the concrete model (Concrete.v) and the references
+   it computes are compared with the ones the harness decoded (the edges used above). *)
 From Coq Require Import String.
 From stdpp Require Import gmap.
-From V.C03 Require Import Model.
+From V.Base Require Import Hex.
+From V.C03 Require Import Model Concrete.
 
-Definition K := TSkip.
-Definition T := TNode.
+Definition K := @TSkip N.
+Definition T := @TNode N.
 
 Record commit := C {
   c_root : N;
   c_cache : list (N * (N * (list N * list N)));   (* hash, blob size, (tracked = childs(), refs of the blob) *)
   c_failed : list N;    (* puts that reached the disk in a first attempt ended by a Write error *)
-  c_tree : tree;
+  c_tree : @tree N;
   c_puts : list N;
   c_batches : list (list N);
   c_exact : bool;
@@ -40,7 +43,11 @@ Record commit := C {
 
 Inductive c03case :=
 | History (limit : N) (commits : list commit)
-| Inventory (callers : list string).
+| Inventory (callers : list string)
+(* a real blob in the role it was read (0 account trie node, 1 storage trie node, 2 code), the empty
+   root and empty-code constants of the implementation, and the references the harness decoded from
+   it: the concrete model's decoder (Concrete.blob_refs) must find the same list *)
+| Blob (role : N) (empty_root empty_code blob : string) (refs : list string).
 
 Definition check_commit (limit : N) (d : gmap N (list N)) (cm : commit) : bool * gmap N (list N) :=
   let c : gmap N dnode := list_to_map (map (λ e, (e.1, DNode e.2.2.1 e.2.2.2)) (c_cache cm)) in
@@ -75,4 +82,7 @@ Definition check (c : c03case) : bool :=
   match c with
   | History limit cs => check_commits limit ∅ cs
   | Inventory callers => match callers with [] => true | _ => false end
+  | Blob r er ec e refs =>
+      let role := match r with 0%N => RAccount | 1%N => RStorage | _ => RCode end in
+      bool_decide (blob_refs (unhex er) (unhex ec) role (unhex e) = map unhex refs)
   end.
